@@ -28,7 +28,17 @@ import (
 // true if the first element of the proof set is a leaf of data in the Merkle
 // root. False is returned if the proof set or Merkle root is nil, and if
 // 'numLeaves' equals 0.
-func VerifyProof(h hash.Hash, merkleRoot []byte, proofSet [][]byte, proofIndex uint64, numLeaves uint64) bool {
+func VerifyProof(h hash.Hash, merkleRoot []byte, proofSet [][]byte, proofIndex uint64, numLeaves uint64) (ok bool) {
+	// Hash functions working over a field (MiMC, Poseidon2) refuse inputs that are not canonical
+	// field elements and sum() panics in that case: such a proof is simply invalid.
+	defer func() {
+		if r := recover(); r != nil {
+			if _, isErr := r.(error); !isErr {
+				panic(r)
+			}
+			ok = false
+		}
+	}()
 	// Return false for nonsense input. A switch statement is used so that the
 	// cover tool will reveal if a case is not covered by the test suite. This
 	// would not be possible using a single if statement due to the limitations
